@@ -455,7 +455,7 @@ func writeEvidence(id, tier string, seed int, ps *PropSpec, L *Loaded, runs []*H
 			"obligations_discharged":        discharged,
 			"obligations_constant_true":     trivial,
 			"solver_time_s":                 round2(solverTime),
-			"solvers":                       []string{"z3 4.8.12 (-in, incremental)"},
+			"solvers":                       []string{solverVersion(defaultSolver())},
 			"stubs":                         ps.Stubs,
 			"outside_claim":                 ps.Outside,
 			"harnesses":                     hsum,
@@ -511,3 +511,12 @@ func runShell(cmd string) int {
 }
 
 var execCommand = osexec.Command
+
+func solverVersion(kind string) string {
+	bin := kind
+	out, err := osexec.Command(bin, "--version").Output()
+	if err != nil {
+		return kind
+	}
+	return kind + ": " + strings.TrimSpace(strings.Split(string(out), "\n")[0]) + " (one incremental process per worker)"
+}
